@@ -90,10 +90,23 @@ def structures(ctx):
     prot.append(("frag-1HPX-A20+25-truncated", C.join(trunc + [C.TER])))
     het = [("1HPX", C.test_pdb_text("1HPX")), ("4DFR-A", "\n".join(ln for ln in C.test_pdb_text("4DFR").splitlines()
                                                               if not (C.is_atom(ln) and ln[21] != "A")) + "\n")]
+    # a chain that starts with an aspartate (N+ and the carboxylate are covalently coupled), scored with the optional
+    # parameter settings of that coupling (common charge centre, shared determinants): names ending in [tag] get -p
+    het.append(("frag-3SGB-I0+14 [ccc+shared+keep]", C.join(C.chain_lines("3SGB", "I", 0, 14) + [C.TER])))
     if ctx.thorough():
+        het.append(("3SGB-subset [ccc]", C.test_pdb_text("3SGB-subset")))
         prot += [("3SGB", C.test_pdb_text("3SGB")), ("1FTJ-protein", protein_only(C.test_pdb_text("1FTJ-Chain-A")))]
         het += [("1FTJ-Chain-A", C.test_pdb_text("1FTJ-Chain-A")), ("4DFR", C.test_pdb_text("4DFR"))]
     return prot, het
+
+
+def opts_for(name):
+    """Structures whose name ends in [tag] are scored with the parameter-file variant `tag` of c02.PARAMS."""
+    from . import c02
+    if name.endswith("]") and "[" in name:
+        tag = name[name.rindex("[") + 1:-1]
+        return ["-q", "-p", c02.param_file(c02.PARAMS[tag][0], tag)]
+    return ["-q"]
 
 
 def run(ctx):
@@ -128,7 +141,7 @@ def run(ctx):
         if knife_edge(text):
             skipped += 1
             continue
-        base = runner.run(text, ["-q"], write=False)
+        base = runner.run(text, opts_for(name), write=False)
         ctx.count()
         if base.exc is not None:
             ctx.violation(f"run:exception:{name}", repr(base.exc), {"pdb": text})
@@ -139,7 +152,7 @@ def run(ctx):
             mt = move_text(text, m["p"], m["s"], t)
             R = rot_fn(m["p"], m["s"])
             T = lambda v, R=R, t=t: tuple(a + b for a, b in zip(R(v), t))  # noqa
-            rb = runner.run(mt, ["-q"], write=False)
+            rb = runner.run(mt, opts_for(name), write=False)
             ctx.count()
             meta = {"input": name, "motion": {"p": m["p"], "s": m["s"], "t": list(t)}, "pdb": mt, "orig": text}
             if rb.exc is not None:
